@@ -136,7 +136,17 @@ func (c13Stream) Impl(c Case) string {
 	}
 	var barrier sync.WaitGroup
 	barrier.Add(k)
-	mux := allRoutes(h, startTLSHandler(srvTLS, time.Duration(atoi(p["before"]))*time.Millisecond, time.Duration(atoi(p["after"]))*time.Millisecond), nil)
+	stls := startTLSHandler(srvTLS, time.Duration(atoi(p["before"]))*time.Millisecond, time.Duration(atoi(p["after"]))*time.Millisecond)
+	if p["stop"] == "1" {
+		// the handler lingers for a while after the upgrade: Stop arrives while the read loop is not parked in a read,
+		// so the loop head sees the cancellation and sends the notice of disconnection - inside the tunnel
+		inner := stls
+		stls = func(w *gldap.ResponseWriter, r *gldap.Request) {
+			inner(w, r)
+			time.Sleep(200 * time.Millisecond)
+		}
+	}
+	mux := allRoutes(h, stls, nil)
 	sut, err := startServer(mux, nil, nil)
 	if err != nil {
 		return "harness-error start: " + err.Error()
@@ -218,6 +228,37 @@ func (c13Stream) Impl(c Case) string {
 			}
 			_ = tc.SetDeadline(time.Time{})
 			tcl := &rawClient{c: tc}
+			if p["stop"] == "1" {
+				// Stop is called once every session has completed its upgrade (a Stop that interrupts a handshake makes
+				// that upgrade fail, which is not this property's business); whatever the server still sends - the notice
+				// of disconnection - must arrive inside the tunnel
+				allUp.Done()
+				upc := make(chan struct{})
+				go func() { allUp.Wait(); close(upc) }()
+				select {
+				case <-upc:
+				case <-time.After(15 * time.Second):
+					return
+				}
+				stopOnce.Do(func() {
+					// ... and the server side of every upgrade too (with TLS 1.3 the client finishes first): the
+					// connection's reader and writer have been swapped (second conn.init of each connection)
+					for i := 0; i < 5000 && sut.tr.Count("conn.init", -1) < 2*k; i++ {
+						time.Sleep(time.Millisecond)
+					}
+					go sut.stop(10 * time.Second)
+				})
+				for {
+					if _, err := tcl.readFrame(3 * time.Second); err != nil {
+						if strings.Contains(err.Error(), "tls:") {
+							fail("after Stop the server sent bytes that are not TLS records inside the tunnel: %v", err)
+						}
+						break
+					}
+				}
+				_ = tc.Close()
+				return
+			}
 			kinds := make([]string, post)
 			var all []byte
 			for j := 0; j < post; j++ {
@@ -257,31 +298,6 @@ func (c13Stream) Impl(c Case) string {
 					fail("%d distinct responses for %d pipelined requests inside the tunnel", len(seen), post)
 				}
 			}
-			if p["stop"] == "1" {
-				// keep the tunnel busy while the server is stopped; whatever the server still sends must be TLS.
-				// Stop is called only once every session has completed its upgrade (a Stop that interrupts a
-				// handshake makes that upgrade fail, which is not this property's business)
-				allUp.Done()
-				upc := make(chan struct{})
-				go func() { allUp.Wait(); close(upc) }()
-				select {
-				case <-upc:
-				case <-time.After(15 * time.Second):
-					return
-				}
-				stopOnce.Do(func() { go sut.stop(10 * time.Second) })
-				for j := 0; j < 2000; j++ {
-					if err := tcl.send(opFrame("search", int64(5000+j))); err != nil {
-						break
-					}
-					if j%8 == 7 {
-						if _, err := tcl.readFrame(2 * time.Second); err != nil {
-							break
-						}
-					}
-				}
-				time.Sleep(50 * time.Millisecond)
-			}
 			_ = tc.Close()
 		}(s)
 	}
@@ -314,11 +330,15 @@ func (c13Stream) Impl(c Case) string {
 					nes++
 				}
 			}
-			if nes != post+pre {
+			wantH := post + pre
+			if p["stop"] == "1" {
+				wantH = pre
+			}
+			if nes != wantH {
 				fail("conn %d: %d handlers for %d plain and %d tunnel requests", cid, len(es), pre, post)
 			}
 		}
-		if len(byConn) != k {
+		if len(byConn) != k && !(p["stop"] == "1" && pre == 0) {
 			fail("%d connections served tunnel requests, want %d", len(byConn), k)
 		}
 	}
@@ -354,10 +374,12 @@ func (c13Stream) Impl(c Case) string {
 // is served (RFC 4511 forbids this to clients, so nothing is judged but the absence of a data race or crash).
 func c13Overlap(k int) string {
 	h := func(w *gldap.ResponseWriter, r *gldap.Request) {
-		time.Sleep(15 * time.Millisecond)
+		if _, ok := r.VerifMessage().(*gldap.SearchMessage); ok {
+			time.Sleep(120 * time.Millisecond) // answers well after the connection has been upgraded
+		}
 		answer(w, r)
 	}
-	sut, err := startServer(allRoutes(h, startTLSHandler(srvTLS, 0, 5*time.Millisecond), nil), nil, nil)
+	sut, err := startServer(allRoutes(h, startTLSHandler(srvTLS, 0, 0), nil), nil, nil)
 	if err != nil {
 		return "harness-error start: " + err.Error()
 	}
@@ -374,22 +396,25 @@ func c13Overlap(k int) string {
 			cl := &rawClient{c: raw}
 			_ = cl.send(append(append(opFrame("search", 10), opFrame("bind", 11)...), opFrame("starttls", 12)...))
 			for i := 0; i < 3; i++ {
-				if _, err := cl.readFrame(300 * time.Millisecond); err != nil {
+				f, err := cl.readFrame(time.Second)
+				if err != nil || strings.HasPrefix(strictView(f), "result id=12 ") {
 					break
 				}
 			}
 			cfg := cliTLS.Clone()
 			cfg.ServerName = "localhost"
 			tc := tls.Client(raw, cfg)
-			_ = tc.SetDeadline(time.Now().Add(500 * time.Millisecond))
+			_ = tc.SetDeadline(time.Now().Add(time.Second))
 			if tc.Handshake() == nil {
-				tcl := &rawClient{c: tc}
-				_ = tcl.send(opFrame("search", 20))
-				_, _ = tcl.readFrame(300 * time.Millisecond)
+				// the late answer of the search arrives now (in the clear, on the unchanged tree: RFC 4511 forbids the
+				// client to have it outstanding); read whatever comes until the deadline
+				buf := make([]byte, 4096)
+				_, _ = tc.Read(buf)
 			}
 		}()
 	}
 	wg.Wait()
+	time.Sleep(150 * time.Millisecond)
 	sut.finish()
 	return "ok\t"
 }
